@@ -40,14 +40,19 @@ type c03Spec struct {
 	Transport string  `json:"transport"`
 	Ops       []c03Op `json:"ops"`
 	InitDur   int     `json:"init_dur_ms,omitempty"`
+	Version   string  `json:"version,omitempty"` // requested protocol version ("" = the client's default, 2026-07-28 on persistent connections)
 }
 
 func genC03(r *vh.Rand) c03Spec {
 	s := c03Spec{Mode: []string{"c2s", "c2s", "s2c", "raw-init"}[r.Intn(4)]}
 	s.Transport = vhm.PairKinds[r.Intn(len(vhm.PairKinds))]
+	s.Version = "2025-06-18"
 	if s.Mode == "raw-init" {
 		s.Transport = "pipe"
 		s.InitDur = r.Range(1, 6)
+	} else if s.Mode == "c2s" && r.Chance(1, 3) {
+		s.Version = ""
+		s.Transport = r.Choose("mem", "pipe")
 	}
 	for i, k := 0, r.Range(3, 12); i < k; i++ {
 		op := c03Op{N: i + 1, Kind: "notify", Dur: r.Intn(6), Gap: []int{0, 0, 0, 1, 2, 3}[r.Intn(6)]}
@@ -154,12 +159,13 @@ func runC03(c *vh.Case, spec c03Spec) {
 	} else {
 		client.AddReceivingMiddleware(c03MW(log, dur, 0))
 	}
-	pair, err := vhm.Connect(ctx, vhm.PairOpts{Kind: spec.Transport, Server: server, Client: client, ClientVersion: "2025-06-18", AsyncDelete: true})
+	pair, err := vhm.Connect(ctx, vhm.PairOpts{Kind: spec.Transport, Server: server, Client: client, ClientVersion: spec.Version, AsyncDelete: true})
 	if err != nil || pair.SS == nil {
 		c.Inconclusive("connect %s: %v", spec.Transport, err)
 		return
 	}
 	cs, ss := pair.CS, pair.SS
+	c.Seen("negotiated", spec.Transport+"/"+cs.InitializeResult().ProtocolVersion)
 	synctestWait()
 	var calls sync.WaitGroup
 	for _, op := range spec.Ops {
